@@ -60,7 +60,8 @@ def r5_1(ctx, R):
             recv = strip_refs(fl.operand_expr(t["args"][0]))
             if any(re.search(r"Option::<.*>::as_pin_mut$", c[1] or "") for c in expr_calls(recv)):
                 continue
-            if b.path.startswith("<futures_ordered_bounded::OrderWrapper") or ">::project" in str(recv):
+            from roles import order_wrapper_path
+            if b.path.startswith("<%s<" % (order_wrapper_path(ctx.facts) or "?")) or ">::project" in str(recv):
                 # OrderWrapper::poll forwards to its own pinned field: the wrapper itself is the child of the inner queue
                 inner = recv
                 ok = inner[0] in ("proj", "call")
